@@ -344,6 +344,7 @@ func listOracle(c *oracleCtx) {
 	everyStorePath(c)
 	typedNativeNils(c)
 	removalKeepsChildren(c)
+	zeroArgVariadics(c)
 	c.rule = "operation sequences on a pool of live lists (4 initial pools incl. spare capacity and shared nested containers), every list compared with a sequence model after every step; a case is non-trivial when it contains a mutation or a derivation; distinct = distinct sequences"
 	if c.filter != nil {
 		for id := range c.filter {
@@ -398,6 +399,7 @@ func init() {
 		// deriving operations on both container kinds: the list pool and the object pool
 		c09DeriveTwice(c)
 		c09OverlappingReaders(c)
+		c09ComparisonOperands(c)
 		if c.filter != nil {
 			lf, of := map[string]bool{}, map[string]bool{}
 			for id := range c.filter {
@@ -713,6 +715,28 @@ func c09OverlappingReaders(c *oracleCtx) {
 		}
 		return ""
 	})
+}
+
+// c09ComparisonOperands: Equals / Contains / IndexOf / KeyOf leave the receiver AND the argument unchanged, whatever the
+// outcome of the comparison (all ordered pairs of the small trees, incl. same-size objects with different key sets)
+func c09ComparisonOperands(c *oracleCtx) {
+	trees := smallTrees()
+	for i, ta := range trees {
+		ta, i := ta, i
+		c.check("operands:"+ta.id, true, func() string {
+			for j, tb := range trees {
+				a, b := ta.make(), tb.make()
+				na, nb := nativeAny(a), nativeAny(b)
+				callEquals(a, b)
+				holderL, holderO := NewList(1, a), NewObject("x", 1, "a", a)
+				catch(func() { holderL.Contains(b); holderL.IndexOf(b); holderO.Contains(b); holderO.KeyOf(b) })
+				if !reflect.DeepEqual(na, nativeAny(a)) || !reflect.DeepEqual(nb, nativeAny(b)) {
+					return fmt.Sprintf("comparing %s with %s (trees %d, %d) changed an operand", ta.id, tb.id, i, j)
+				}
+			}
+			return ""
+		})
+	}
 }
 
 func c09DeriveTwice(c *oracleCtx) {
